@@ -6,6 +6,7 @@ import (
 	"fmt"
 	"go/token"
 	"go/types"
+	"regexp"
 	"sort"
 	"strings"
 
@@ -909,49 +910,39 @@ func propC07(r *Run, w *World) {
 			work = append(work, b.Preds...)
 		}
 		nD := 0
+		neRe := regexp.MustCompile(`^(.+) != ([0-9]+)$`)
+		isDefault := func(b *ssa.BasicBlock) bool {
+			bySubj := map[string]map[string]bool{}
+			for _, l := range GuardLits(b) {
+				if m := neRe.FindStringSubmatch(l); m != nil {
+					if bySubj[m[1]] == nil {
+						bySubj[m[1]] = map[string]bool{}
+					}
+					bySubj[m[1]][m[2]] = true
+				}
+			}
+			for _, ne := range bySubj {
+				if len(ne) != len(want) {
+					continue
+				}
+				same := true
+				for k := range want {
+					if !ne[k] {
+						same = false
+					}
+				}
+				if same {
+					return true
+				}
+			}
+			return false
+		}
 		for _, b := range x.toCmd.Blocks {
-			if len(b.Preds) != 1 {
-				continue
+			// the outermost blocks that know the field to be none of the four
+			if !canReach[b] && !isW[b] {
+				// still a default arm (it may leave the region at once), but only blocks inside matter for reachability
 			}
-			// the innermost guard must be one of the four inequalities (b is the else-successor of the chain's last test)
-			ifi, ok := b.Preds[0].Instrs[len(b.Preds[0].Instrs)-1].(*ssa.If)
-			if !ok || b.Preds[0].Succs[1] != b {
-				continue
-			}
-			bo, ok := ifi.Cond.(*ssa.BinOp)
-			if !ok || bo.Op != token.EQL {
-				continue
-			}
-			subj := bo.X
-			if _, isC := subj.(*ssa.Const); isC {
-				subj = bo.Y
-			}
-			ne := map[string]bool{}
-			for _, g := range GuardsAt(b) {
-				gb, ok := g.Cond.(*ssa.BinOp)
-				if !ok || g.Pol || gb.Op != token.EQL {
-					continue
-				}
-				a, c := gb.X, gb.Y
-				if _, isC := a.(*ssa.Const); isC {
-					a, c = c, a
-				}
-				cc, isC := c.(*ssa.Const)
-				if !isC || cc.Value == nil || Term(a) != Term(subj) {
-					continue
-				}
-				ne[cc.Value.ExactString()] = true
-			}
-			if len(ne) != len(want) {
-				continue
-			}
-			same := true
-			for k := range want {
-				if !ne[k] {
-					same = false
-				}
-			}
-			if !same {
+			if !isDefault(b) || (b.Idom() != nil && isDefault(b.Idom())) {
 				continue
 			}
 			nD++
